@@ -34,5 +34,6 @@ def jobs(tier):
             continue    # the deserialiser's loop bounds come back from double->size_t conversions that symex does not fold; the instances exhaust the solver's memory. Thorough tier only.
         J.append(Job("tensor_roundtrip@%dx%d,%dx%d" % (r, c, r2, c2), "C16/serial.c", entry="h_tensor_roundtrip", srcs=S, kind="bounded",
                      defines={"VC_R": r, "VC_C": c, "VC_R2": r2, "VC_C2": c2}, unwind=max(r, c, r2, c2, 2) + 3, cbmc_flags=["--slice-formula"], functions=["serialize_tensor", "deserialize_tensor"],
+                     advisory=True, timeout=600, tier="thorough",
                      bound="two blocks %dx%d and %dx%d, contents symbolic" % (r, c, r2, c2), clause="tensor serialiser pair is inverse for blocks of different shapes; length formula"))
     return J
